@@ -10,6 +10,22 @@ CHECKS = {
          "Structural necessary conditions, decided exhaustively over the paths of package seq: every exported combinator is abstractly evaluated on symbolic arguments and the traces of thunk/cond/post/continuation calls and c.step stores are compared with the reference semantics of the property for all 4 signals x nil-ness of cond/post x cond answers x 5 body behaviours x resumptions x a second run of the same Seq. A change to the runtime that alters any of these tables is reported with the offending trace.",
          "Decides the combinators' own code, not Seq values written by users; continuations are assumed to be used linearly by the Seq arguments; Go closure semantics and go/ssa are trusted; numeric stack bounds are C17.",
          "DESIGN.md §4 C08"),
+ "C09": ("finite-domain abstract interpretation of the generator methods; protocol tables vs reference",
+         "Every clause of the iterator protocol is a row of a table extracted from the source: MoveNext/Send/Current/Result of the concrete type returned by seq.Start are abstractly evaluated for every combination of started x pending resumption nil/non-nil x nil/non-nil step of each resumption; calls made, final field contents and results are compared with the reference protocol.",
+         "Assumes a non-nil step carries a non-nil resumption (established for Bind/BindRecv by SEQ.SUSPEND in the same run); Go semantics and go/ssa trusted.",
+         "DESIGN.md §4 C09"),
+ "C14": ("resolved-program scan (package state, stores through captured variables) + abstract second-run check",
+         "Decides the structural cause of independence: no package-level state touched by runtime code; no closure of a Seq constructor assigns a variable living outside the returned Seq; Start allocates generator and coroutine state per call; a second run of the same loop Seq starts from scratch; the rewriter never introduces declarations.",
+         "Does not decide data-race freedom of user code around iterators; rewriter template part (locals live inside the per-call thunk) is decided under C02/C03's rules.",
+         "DESIGN.md §4 C14"),
+ "C17": ("abstract stack-height analysis over the K1 state graph of the loop driver; static call-graph cycle check",
+         "Decides the structural cause of stack growth: with a body that completes synchronously (Normal/Continue), before and after a resumption, the abstract activation stack at successive body calls of For/While/Loop must not get deeper; no static recursion in package seq.",
+         "No numeric bound is decided; depth contributed by user thunks is assumed bounded by term size; delegation depth grows linearly by construction.",
+         "DESIGN.md §4 C17"),
+ "C18": ("resolved-program scan for go/defer/recover/select/sync in the runtime and in emitted AST; path rule on MoveNext/Send",
+         "Decides the whole mechanism the property names: the runtime has no construct that could swallow, defer or move a panic to another goroutine; the advance calls the pending resumption synchronously and overwrites current/next only afterwards; resumptions run their thunk inside the call; the rewriter never emits go/defer/select/recover.",
+         "Go's panic propagation is trusted; panics raised inside user code called from generator statements propagate like any other.",
+         "DESIGN.md §4 C18"),
 }
 
 NOT_APPLICABLE = {
